@@ -59,6 +59,7 @@ type Chain struct {
 	Privs   []*keys.PrivateKey // committee keys in the order the ledger reports them (sorted)
 	Alpha   neotest.Signer     // 2n/3+1 multi-signature account ("the Alphabet")
 	Cmt     neotest.Signer     // n/2+1 multi-signature account ("the committee")
+	Half    neotest.Signer     // n/2 of n multi-signature account: one signature short of the committee (nil for n < 2)
 	Members []neotest.Signer   // one single-key signer per committee member
 	Payer   neotest.Signer     // funded account that pays all fees and has no role
 
@@ -115,6 +116,9 @@ func New(t testing.TB, n int, seed int64) *Chain {
 	c := &Chain{T: t, BC: bc, N: n, Privs: privs, seed: seed,
 		Alpha: multi(t, privs, n*2/3+1), Cmt: multi(t, privs, n/2+1)}
 	c.E = neotest.NewExecutor(t, bc, val, c.Cmt)
+	if n >= 2 {
+		c.Half = multi(t, privs, n/2)
+	}
 	for i := range privs {
 		c.Members = append(c.Members, neotest.NewSingleSigner(wallet.NewAccountFromPrivateKey(privs[i])))
 	}
